@@ -4,6 +4,7 @@ CPython executes the real function bodies; only data is symbolic.  Everything he
 fail-closed: an operation the proxies do not model raises Undecided (a BaseException, so
 library code cannot swallow it).
 """
+import os
 import time
 from fractions import Fraction
 import z3
@@ -27,7 +28,7 @@ CTX = None          # the current path context; always access as core.CTX
 
 DBL_MAX = Fraction(int((2**53 - 1) * 2**971))
 TWO53 = 2**53
-TIMEOUT_MS = 10000
+TIMEOUT_MS = int(os.environ.get('FXPV_TIMEOUT_MS', '10000'))
 
 
 def _is_true(t):
